@@ -79,8 +79,7 @@ def validate(ctx, cfg, tracefile, al, seed):
     """Validate one trace file with TLC; classify every VIOL. Returns the discrepancies [(sig, what, replay)]
     (reported by the caller in a fixed order, so that the saved replay of a signature does not depend on which
     configuration's thread finished first)."""
-    r = ctx.tlc_trace("Trace_SortedKV", "Trace_SortedKV.cfg", tracefile, overrides=trace_overrides(al),
-                      env={"JAVA_TOOL_OPTIONS": JVM_SHORT})
+    r = ctx.tlc_trace("Trace_SortedKV", al["_tcfg"], tracefile, env={"JAVA_TOOL_OPTIONS": JVM_SHORT})
     if not r["accepted"]:
         raise vlib.MachineryError("trace %s not fully consumed (cfg %s): %s" % (tracefile, cfg, r["out"][-1500:]))
     found = []
@@ -170,8 +169,9 @@ def drive(ctx, drv, cfg, histfile, al, seed, scratch, random=0, rlen=0, tag="g")
 
 
 def report(ctx, found):
-    # exhaustive legs before the seeded ones: the replay saved for a signature is then the same for every seed
-    order = {"batch": 0, "scan": 1, "mut": 2, "batch3": 3}
+    # exhaustive legs before the seeded ones (the shortest histories first): the replay saved for a signature is then
+    # the same for every seed
+    order = {"scan": 0, "batch": 1, "mut": 2, "batch3": 3}
     for sig, what, rp in sorted(found, key=lambda f: order.get(f[2].get("leg"), 9)):
         ctx.discrepancy(sig, what, rp)
 
@@ -205,12 +205,11 @@ def negative_samples(ctx, drv, al, scratch):
     want.append(i + 1)
     bf = ctx.path("neg_bad.ndjson")
     vlib.write_jsonl(bf, bad)
-    ov = trace_overrides(al)
-    r = ctx.tlc_trace("Trace_SortedKV", "Trace_SortedKV.cfg", bf, overrides=ov)
+    r = ctx.tlc_trace("Trace_SortedKV", al["_tcfg"], bf)
     got = sorted(v[0] for v in r["viols"])
     if not r["accepted"] or got != sorted(want):
         raise vlib.MachineryError("negative samples: corrupted lines %s, reported %s - the trace spec does not bind" % (want, got))
-    r = ctx.tlc_trace("Trace_SortedKV", "Trace_SortedKV.cfg", out, overrides=ov)
+    r = ctx.tlc_trace("Trace_SortedKV", al["_tcfg"], out)
     if not r["accepted"] or r["viols"]:
         raise vlib.MachineryError("negative samples: the uncorrupted memory trace is not clean: %s" % r["viols"][:3])
     ctx.count("T", negative_samples_rejected=len(want))
@@ -223,6 +222,9 @@ def run(ctx, replay):
     rc, so, se = ctx.run([drv, "-alphabet"], timeout=60)
     al = json.loads(so)
     ctx.specs()
+    # derived once, before any thread starts: vlib writes a derived .cfg in place, and fourteen validations deriving
+    # the same file at the same moment can read it half-written
+    al["_tcfg"] = ctx._cfg("Trace_SortedKV.cfg", trace_overrides(al))
     base = "/dev/shm" if os.path.isdir("/dev/shm") and os.access("/dev/shm", os.W_OK) else ctx.scratch
     scratch = os.path.join(base, "verif-c10-%d" % os.getpid())
     os.makedirs(scratch, exist_ok=True)
